@@ -193,6 +193,17 @@ impl Debugger {
                 );
                 self.status = Status::WaitForAction;
             }
+            // A jump to the halt address: without the debugger the program would end here.
+            // Nothing can execute, so wait for a command instead of spinning
+            Ordering::Greater => {
+                dprintln!(
+                    Alternate,
+                    Warning,
+                    "Reached::Halt",
+                    ["Program counter is at halt address (0x{:04X}). Pausing execution.", HALT_ADDRESS],
+                );
+                self.status = Status::WaitForAction;
+            }
             _ => (),
         }
 
